@@ -130,3 +130,48 @@ def Chunk.token (c : Chunk α) :
   (c.tokenAsFound, c.lhsKeep)
 
 end OdcGeo.C06
+
+namespace OdcGeo.C06
+variable {α : Type}
+
+/-! ### the finaliser task executed twice -/
+
+/-- one execution of `_finalizer_dask_op(root, write, mk_header, mk_footer)` together with the state its INPUT object
+`root` is left in:
+* a non-empty footer is appended to `root` itself (`_root.append(footer_bytes)`);
+* with a non-empty header the flush works on the chunk `merge(hdr, root)` returns — a new object whose lists are fresh or
+  re-bound before they change, so `root` keeps the state it had after the footer was appended;
+* without a header (and with a writer) `flush` works on `root` itself: `root` afterwards is the flushed chunk. -/
+structure FinPost (α : Type) where
+  out : Out α
+  writes : List (Part α)
+  rootAfter : Chunk α
+  deriving Repr
+
+def finalizerPost (w : Option Writer) (root : Chunk α) (hdr ftr : Option (List α)) : Res (FinPost α) :=
+  let root1 := match ftr with
+    | some f => if f.length ≠ 0 then root.append f (-1) else root
+    | none => root
+  let hasHdr := match hdr with | some h => decide (h.length ≠ 0) | none => false
+  match finalizer w root hdr ftr with
+  | .error e => .error e
+  | .ok (out, ws) =>
+    match w with
+    | none => .ok ⟨out, ws, root1⟩
+    | some W =>
+      if hasHdr then .ok ⟨out, ws, root1⟩
+      else match flushFull W root1 (some W.minPart) true with
+        | .error e => .error e
+        | .ok r => .ok ⟨out, ws, r.after⟩
+
+/-- the finaliser executed again on the same (by now modified) root; the callbacks see the root's observed list of
+that moment -/
+def finalizerTwice (w : Option Writer) (root : Chunk α) (mkHdr mkFtr : Option (List (Nat × Int) → List α)) :
+    Res (FinPost α × Res (FinPost α)) :=
+  match finalizerPost w root (mkHdr.map fun f => f root.observed) (mkFtr.map fun f => f root.observed) with
+  | .error e => .error e
+  | .ok p1 =>
+    .ok (p1, finalizerPost w p1.rootAfter (mkHdr.map fun f => f p1.rootAfter.observed)
+      (mkFtr.map fun f => f p1.rootAfter.observed))
+
+end OdcGeo.C06
